@@ -58,6 +58,9 @@ Seeds ==
                                 NewArgs("align", NUCLEOTIDS, 0, <<Row(nA, <<65, 67, 65, 45, 65>>), Row(nB, <<65, 84, 65, 45, 67>>)>>),
                                 \* a row whose name is the short name another row will get (abcdefgh, abcdef01 at size 8)
                                 NewArgs("align", NUCLEOTIDS, 0, <<Row(<<97, 98, 99, 100, 101, 102, 103, 104>>, <<65, 67>>), Row(<<97, 98, 99, 100, 101, 102, 48, 49>>, <<71, 71>>)>>),
+                                \* a name, the same name with a suffix, and with a prefix (a, ax, xa): adding the affix to every name
+                                \* gives the first row the current name of a later one
+                                NewArgs("align", NUCLEOTIDS, 0, <<Row(nA, <<65, 67>>), Row(<<97, 120>>, <<71, 71>>), Row(<<120, 97>>, <<84, 84>>)>>),
                                 \* names sharing a prefix (abcd1, abcd2, abxy3)
                                 NewArgs("align", NUCLEOTIDS, 0, <<Row(<<97, 98, 99, 100, 49>>, <<65, 67>>), Row(<<97, 98, 99, 100, 50>>, <<65, 71>>), Row(<<97, 98, 120, 121, 51>>, <<84, 71>>)>>)},
                     y \in {NewArgs("align", NUCLEOTIDS, 0, <<Row(nB, <<71, 71>>), Row(nC, <<45, 84>>)>>),
@@ -122,7 +125,11 @@ Seeds ==
                       \cup Aligns(<<nA>>, {65, 67}, 3, NUCLEOTIDS, 0)
                       \cup Aligns(<<nA, nB, nC>>, {65, 74}, 2, UNKNOWN, 0)
                       \cup {NewArgs("bag", NUCLEOTIDS, 0, <<Row(nA, <<65>>), Row(nB, <<65, 67>>), Row(nC, <<65>>), Row(nZ, <<65, 67>>)>>),
-                             NewArgs("bag", NUCLEOTIDS, 0, <<Row(nA, <<65, 78>>), Row(nB, <<65, 45>>), Row(nC, <<65>>), Row(nZ, <<>>)>>)}}
+                             NewArgs("bag", NUCLEOTIDS, 0, <<Row(nA, <<65, 78>>), Row(nB, <<65, 45>>), Row(nC, <<65>>), Row(nZ, <<>>)>>),
+                             \* sequence sets a file can carry (no empty row): rows equal up to N / X against a gap, of the same and of
+                             \* different lengths
+                             NewArgs("bag", NUCLEOTIDS, 0, <<Row(nA, <<65, 78>>), Row(nB, <<65, 45>>), Row(nC, <<65>>), Row(nZ, <<65, 78>>)>>),
+                             NewArgs("bag", AMINOACIDS, 0, <<Row(nA, <<75, 88, 81>>), Row(nB, <<75, 45, 81>>), Row(nC, <<75, 81>>)>>)}}
     [] Profile = "C14" ->
          LET R6 == <<65, 67, 97, 78, 45, 46>>
              hs == {2, 3}
